@@ -135,7 +135,7 @@ def run(F, ctx):
     authrules.rule_no_bypass(F, ctx)
     ctx.rule("R-C30-e", "statement-intercepting paths of execute_program act on one segment of the program, like the executor", floor=3)
     e = F.fn(authrules.EP)
-    prog = e.local_named("program")
+    prog = e.need_local("program")
     whole = e.derive({prog}, through_calls=True, stop_calls=[_LINES, JOIN]) if prog is not None else set()
     seg = set()
     for c in e.normal_calls():
